@@ -173,3 +173,18 @@ unary("np.sinc", np.sinc, [{}], [(4,)], cls="bare", noncov="documented to ignore
 unary("np.i0", np.i0, [{}], [(4,)], cls="bare", noncov="transcendental; behaviour intentionally left to NumPy's default")
 unary("np.unwrap", np.unwrap, [{}, {"axis": 0}], [(4,), (2, 3)], gen="angle", noncov="default period 2*pi is a bare number read in the array's unit")
 T("np.unwrap", "period-q|(4,)", lambda p, per: np.unwrap(p, period=per), {"p": I("X", (4,)), "per": I("X", (), "pos")})
+
+# ---- a shape-() result delivered through a 0-d out= buffer (the class of the returned object is still the quantity) ----
+for name in ("sum", "max", "min", "mean", "median", "nansum", "nanmax", "std", "ptp", "nanmean"):
+    with_out("np." + name, getattr(np, name), {}, (4,), ())
+    with_out("np." + name, getattr(np, name), {"axis": None}, (2, 3), ())
+with_out("np.percentile", lambda a, out: np.percentile(a, 50, out=out), {}, (4,), ())
+with_out("np.quantile", lambda a, out: np.quantile(a, 0.5, out=out), {}, (4,), ())
+T("np.take", "out0d,scalar-index|(4,)", lambda a, out: np.take(a, 2, out=out), {"a": I("X", (4,)), "out": I("X", (), "zeros")}, inplace=("out",))
+T("ndarray.take", "out0d,scalar-index|(4,)", lambda a, out: a.take(1, out=out), {"a": I("X", (4,)), "out": I("X", (), "zeros")}, inplace=("out",))
+T("np.take", "out0d,scalar-index,axis|(2,3)", lambda a, out: np.take(np.take(a, 1, axis=0), 2, out=out), {"a": I("X", (2, 3)), "out": I("X", (), "zeros")}, inplace=("out",))
+T("np.trace", "out0d|(3,3)", lambda a, out: np.trace(a, out=out), {"a": I("X", (3, 3)), "out": I("X", (), "zeros")}, inplace=("out",))
+T("ndarray.sum", "out0d|(4,)", lambda a, out: a.sum(out=out), {"a": I("X", (4,)), "out": I("X", (), "zeros")}, inplace=("out",))
+T("ndarray.max", "out0d|(4,)", lambda a, out: a.max(out=out), {"a": I("X", (4,)), "out": I("X", (), "zeros")}, inplace=("out",))
+T("ndarray.mean", "out0d|(4,)", lambda a, out: a.mean(out=out), {"a": I("X", (4,)), "out": I("X", (), "zeros")}, inplace=("out",))
+T("np.dot", "out0d|(3,)(3,)", lambda a, b, out: np.dot(a, b, out=out), {"a": I("X", (3,)), "b": I("Y", (3,)), "out": I("X", (), "zeros")}, cls="other", inplace=("out",))
